@@ -713,7 +713,7 @@ def s_migration(E, tier):
     for computed in (['report'], ['data:dbl'], [], ['model:agg:total', 'gen', 'tree']):
         for nsmode in (False, True, 'same'):
             d = E.dir()
-            inner = E.write(d, 'c', {'tasks': TASKS + [f'{LIB}.Gen', f'{LIB}.Tree'], 'n': 3})
+            inner = E.write(d, 'c' if nsmode else 'exp.v1', {'tasks': TASKS + [f'{LIB}.Gen', f'{LIB}.Tree'], 'n': 3})     # a dotted config name in the plain variant
             if nsmode == 'same':
                 # the SAME pipeline mounted twice: in parameter mode both mounts are one computation (shared task objects)
                 f = E.write(d, 'top', {'uses': [f'{inner} as train', f'{inner} as test']})
@@ -728,9 +728,18 @@ def s_migration(E, tier):
                     for p_ in pref:
                         for c in computed:
                             _ = old[p_ + c].value
+                    # leftovers of an earlier failed run of a directory task belong to the source store too
+                    leftover = src / 'tree' / f'{Path(f).stem}_error'
+                    if not nsmode:
+                        leftover.mkdir(parents=True, exist_ok=True)
+                        (leftover / 'row_0.txt').write_text('partial')
                     dirs0 = dirs(src)           # before anything inspects the store
+                    files0 = tree(src)
                     cfgo = Config(src, f)
                     migrate_to_parameter_mode(cfgo, dst, dry=True, verbose=bool(E.r.getrandbits(1)))
+                    if tree(src) != files0:
+                        E.viol('C20', 'source_files', f'a dry migration changed files of the source directory: {sorted(set(files0) ^ set(tree(src)))[:3]}', computed,
+                               key='dry-run-source-files')
                     if tree(dst):
                         E.viol('C20', 'dry', f'a dry migration wrote {sorted(tree(dst))[:3]}', computed)
                     if dirs(src) != dirs0:
@@ -1827,10 +1836,112 @@ def s_golden_objects(E, tier):
                'Emb', key='module-task-group')
 
 
+def s_round6(E, tier):
+    """C02 / C03 / C04 / C07 / C11 / C13 / C18 / C19 / C20: input classes found by the sixth round of seeded changes (one clause each, from the statements)"""
+    from taskchain import Config, MultiChain
+    from taskchain.utils.testing import create_test_task
+    from contracts.pipelines import lib
+    d = E.dir()
+    # C02: a parameter object nested in a list value: argument order and ignored arguments do not move the task
+    E.tried += 1
+    wl = lambda kw: [{'class': f'{LIB}.Weights', 'kwargs': kw}, 'x']
+    with quiet():
+        a = rel_paths(Config(d / 'data', E.write(d, 'n1', cfg(n=1, tags=wl({'scale': 2, 'bias': 1})), ext='yaml')).chain(), d / 'data')
+        b = rel_paths(Config(d / 'data', E.write(d, 'n2', cfg(n=1, tags=wl({'bias': 1, 'scale': 2})), ext='yaml')).chain(), d / 'data')
+        c = rel_paths(Config(d / 'data', E.write(d, 'n3', cfg(n=1, tags=wl({'scale': 2, 'bias': 1, 'verbose': True})), ext='yaml')).chain(), d / 'data')
+    if not (a['model:agg:total'] == b['model:agg:total'] == c['model:agg:total']):
+        E.viol('C02', 'location', f'a parameter object inside a list value: other keyword order / an ignored argument moved the task: {a["model:agg:total"]}, '
+               f'{b["model:agg:total"]}, {c["model:agg:total"]}', 'nested object', key='nested-object-kwargs')
+    # C02: a str-typed parameter with a placeholder: the location does not depend on the substituted value
+    E.tried += 1
+    f = E.write(d, 'sl', {'tasks': [f'{LIB}.StrLoc'], 's': '{DIR}/raw.csv'})
+    with quiet():
+        la = rel_paths(Config(d / 'data', f, global_vars={'DIR': '/one'}).chain(), d / 'data')
+        lb = rel_paths(Config(d / 'data', f, global_vars={'DIR': '/two'}).chain(), d / 'data')
+        va = Config(d / 'data', f, global_vars={'DIR': '/one'}).chain()['str_loc'].params['s']
+    if la != lb or str(va) != '/one/raw.csv':
+        E.viol('C02', 'placeholder', f'str-typed parameter with a placeholder: locations {la} vs {lb} for two values of the variable (value seen: {va!r})', 's={DIR}/raw.csv',
+               key='placeholder-str-dtype')
+    # C03: long values that differ only in their tail
+    E.tried += 1
+    with quiet():
+        p1 = rel_paths(Config(d / 'data', E.write(d, 'l1', cfg(n=1, tags=list(range(1000, 1400))))).chain(), d / 'data')
+        p2 = rel_paths(Config(d / 'data', E.write(d, 'l2', cfg(n=1, tags=list(range(1000, 1399)) + [9999]))).chain(), d / 'data')
+    if p1['model:agg:total'] == p2['model:agg:total']:
+        E.viol('C03', 'distinct', 'two 400-element lists that differ only in the last element give model:agg:total the same location', 'long list tail', key='long-value-tail')
+    # C04: a chain that looked at has_data before another chain computed the result loads it afterwards
+    E.tried += 1
+    f = E.write(d, 'hd', cfg(n=2))
+    with quiet():
+        early = Config(d / 'hd', f).chain()
+        seen = [t.has_data for t in early.tasks.values()]
+        _ = Config(d / 'hd', f).chain()['report'].value
+        lib.RUNS.clear()
+        v = early['report'].value
+    if lib.RUNS and any(n in lib.RUNS for n in ('data:src', 'data:dbl', 'model:agg:total', 'report')):
+        E.viol('C04', 'once', f'a chain that had inspected has_data before another chain stored the results ran {lib.RUNS} instead of loading', 'inspect, other chain computes, request',
+               key='stale-has-data')
+    # C07: after force(recompute=True) everything is computed: a following request runs nothing
+    E.tried += 1
+    lib.COUNTER['n'] = 0
+    f = E.write(d, 'fr', {'tasks': [f'{LIB}.Counter', f'{LIB}.AfterCounter']})
+    with quiet():
+        ch = Config(d / 'fr', f).chain()
+        _ = ch['after_counter'].value
+        lib.RUNS.clear()
+        ch.force('counter', recompute=True)
+        during = list(lib.RUNS)
+        lib.RUNS.clear()
+        v = ch['after_counter'].value
+    if sorted(during) != ['after_counter', 'counter'] or lib.RUNS or v != 20:
+        E.viol('C07', 'once', f'force(counter, recompute=True) ran {during}; the following request ran {lib.RUNS} and gave {v} (every forced task exactly once: 20)', 'recompute then request',
+               key='recompute-then-request')
+    # C11: values that come from a context are substituted too
+    E.tried += 1
+    with quiet():
+        c = Config(d, name='gc', data={'a': '{DIR}/a'}, context={'b': '{DIR}/b', 'for_namespaces': {}}, global_vars={'DIR': '/g'})
+        got = (str(c['a']), str(c['b']))
+    if got != ('/g/a', '/g/b'):
+        E.viol('C11', 'context_values', f'config with global_vars and a dict context holding a placeholder: values {got}, expected (/g/a, /g/b)', 'context value', key='context-value-placeholder')
+    # C13: a name-mode MultiChain holds name-mode chains
+    E.tried += 1
+    f1, f2 = E.write(d, 'exp1', cfg(n=1)), E.write(d, 'exp2', cfg(n=2))
+    with quiet():
+        mc = MultiChain([Config(d / 'nm', f1), Config(d / 'nm', f2)], parameter_mode=False)
+        solo = Config(d / 'nm_solo', f1).chain(parameter_mode=False)
+        mp, sp = rel_paths(mc['exp1'], d / 'nm'), rel_paths(solo, d / 'nm_solo')
+    if mp != sp:
+        E.viol('C13', 'same_locations', f'MultiChain(parameter_mode=False): member exp1 stores at {mp.get("report")}, the standalone name-mode chain at {sp.get("report")}', 'name mode',
+               key='name-mode-multichain')
+    # C18: run info names the representation of EVERY parameter value used, persisted in the key or not
+    E.tried += 1
+    with quiet(keep_logging=True):
+        ch = Config(d / 'ri', name='c', data={'tasks': [lib.StrLoc], 'workers': 8}).chain()
+        _ = ch['str_loc'].value
+        info = ch['str_loc'].run_info
+        ch2 = Config(d / 'ri', name='c', data={'tasks': [lib.StrLoc], 'workers': 2}).chain()
+        ch2['str_loc'].force()
+        _ = ch2['str_loc'].value
+        info_first_chain = ch['str_loc'].run_info
+    if sorted(info['parameters']) != ['s', 'workers'] or '8' not in str(info['parameters']['workers']):
+        E.viol('C18', 'run_info', f'run info parameters {info["parameters"]}: every parameter used by the run must be named (s and the non-persisted workers=8)', 'workers', key='non-persisted-parameter')
+    elif '2' not in str(info_first_chain['parameters'].get('workers')):
+        E.viol('C18', 'latest_only', f'after another chain recomputed the result with workers=2, the first chain\'s task still reports run info {info_first_chain["parameters"]}',
+               'second chain recomputes', key='run-info-not-from-store')
+    # C19: a mock given for an optional (InputTaskParameter) input is used
+    E.tried += 1
+    with quiet():
+        t = create_test_task(lib.Report, input_tasks={lib.Mem: {'mem': 3}, 'extra': 55}, parameters={}, base_dir=E.dir())
+        got = t.value
+    if got != {'report': 3, 'extra': 55, 'title': 't'}:
+        E.viol('C19', 'same_value', f'create_test_task(Report, mem mocked, optional input extra mocked with 55) = {got!r}; the real chain gives extra 55', 'optional input mocked',
+               key='optional-input-mock')
+
+
 SCENARIOS = {
-    'C01': [s_values_and_history, s_namespaces, s_ns_prefix, s_none_param], 'C02': [s_same_location, s_different_location, s_process_independent, s_default_not_persisted, s_same_location_more], 'C03': [s_different_location, s_injective],
-    'C04': [s_values_and_history, s_lazy_inputs, s_shared_registry, s_late_upstream], 'C05': [s_failed_publish], 'C12': [s_golden_objects], 'C07': [s_forcing, s_delete_exact, s_force_replaces, s_multichain], 'C08': [s_graph, s_namespaces, s_pattern_exact, s_query_history, s_cycles_and_wildcards], 'C09': [s_contexts, s_namespaces, s_values_and_history, s_ns_prefix, s_no_shared_values, s_multiconfig_isolation],
-    'C10': [s_namespaces, s_name_access, s_input_names], 'C11': [s_contexts, s_ctx_uses_string, s_global_vars_object], 'C13': [s_multichain, s_multichain_memory, s_multichain_mounts], 'C18': [s_run_records, s_log_isolation], 'C19': [s_test_helpers, s_mock_exact], 'C20': [s_migration],
+    'C01': [s_values_and_history, s_namespaces, s_ns_prefix, s_none_param, s_contexts], 'C02': [s_same_location, s_different_location, s_process_independent, s_default_not_persisted, s_same_location_more, s_round6], 'C03': [s_different_location, s_injective, s_round6],
+    'C04': [s_values_and_history, s_lazy_inputs, s_shared_registry, s_late_upstream, s_round6], 'C05': [s_failed_publish], 'C12': [s_golden_objects], 'C07': [s_forcing, s_delete_exact, s_force_replaces, s_multichain, s_round6], 'C08': [s_graph, s_namespaces, s_pattern_exact, s_query_history, s_cycles_and_wildcards], 'C09': [s_contexts, s_namespaces, s_values_and_history, s_ns_prefix, s_no_shared_values, s_multiconfig_isolation],
+    'C10': [s_namespaces, s_name_access, s_input_names], 'C11': [s_contexts, s_ctx_uses_string, s_global_vars_object, s_round6], 'C13': [s_multichain, s_multichain_memory, s_multichain_mounts, s_round6], 'C18': [s_run_records, s_log_isolation, s_round6], 'C19': [s_test_helpers, s_mock_exact, s_round6], 'C20': [s_migration],
 }
 
 
@@ -1846,7 +1957,9 @@ def make(prop):
                     E.viol(prop, f'scenario.{sc.__name__}', f'scenario raised {type(e).__name__}: {e} | {traceback.format_exc().splitlines()[-3].strip()}', sc.__name__)
         finally:
             E.close()
-        mine = [v for v in E.violations if v['property'] == prop]
+        also = {'C01': {'C09'}}.get(prop, set())      # a task configured with the wrong value computes the wrong value
+        mine = [dict(v, property=prop, obligation=v['obligation'].replace(v['property'] + '.integration.', prop + '.integration.', 1)) if v['property'] in also else v
+                for v in E.violations if v['property'] == prop or v['property'] in also]
         seen, uniq = set(), []
         for v in mine:
             k = (v['obligation'], v['witness_key'])
